@@ -169,6 +169,7 @@ class Acc:
         self.extra = collections.Counter()
         self.max_depth = 0
         self._match = None
+        self.shard = None
 
     # -- counting ------------------------------------------------------------------------
     def state(self, key):
@@ -209,7 +210,7 @@ class Acc:
         from . import findings
         self.nviol += 1
         v = dict(property=self.prop, op=op, kind=kind, detail=detail, expected=_j(expected), got=_j(got),
-                 snippet=snippet)
+                 snippet=snippet, shard=self.shard)
         fid = findings.match(v)
         key = ('K', fid) if fid else ('V', op, kind, str(detail.get('group', '')))
         g = self.groups.get(key)
@@ -298,6 +299,7 @@ def _worker(args):
     modname, shard, tier, seed = args
     mod = importlib.import_module(modname)
     acc = Acc(mod.PROPERTY, tier, seed)
+    acc.shard = _j(shard)
     import_bitstring()
     reset_world()
     try:
@@ -340,6 +342,15 @@ def run_snippet(snippet, timeout=120):
     return ('passes' if r.returncode == 0 else 'fails'), (r.stdout + r.stderr)[-2000:]
 
 
+def shard_snippet(modname, tier, seed, shard, key):
+    return '\n'.join([
+        "# history-dependent disagreement: replays one deterministic shard of the exploration in a fresh interpreter",
+        "import sys", f"sys.path.insert(0, {VERIF!r})",
+        "from bsmc import core", f"r = core._worker(({modname!r}, {shard!r}, {tier!r}, {seed!r}))",
+        "assert 'error' not in r, r.get('error')",
+        f"assert {key!r} not in r['groups'], r['groups'][{key!r}]['first']['detail']"])
+
+
 def run_check(modname, tier, seed, jobs=None):
     t0 = time.time()
     mod = importlib.import_module(modname)
@@ -360,7 +371,7 @@ def run_check(modname, tier, seed, jobs=None):
         results = (_worker((modname, s, tier, seed)) for s in shards)
         pool = None
     else:
-        pool = ctx.Pool(jobs)
+        pool = ctx.Pool(jobs, maxtasksperchild=1)   # every shard starts from the pristine parent image: shards are deterministic
         results = pool.imap_unordered(_worker, [(modname, s, tier, seed) for s in shards], chunksize=1)
     try:
         for res in results:
@@ -411,6 +422,17 @@ def finish(mod, total, tier, seed, wall, nshards):
         # confirm in a fresh interpreter, twice, before it is believed
         st1, out1 = run_snippet(v['snippet'])
         st2, out2 = run_snippet(v['snippet'])
+        if st1 == st2 == 'passes' and v.get('shard') is not None:
+            # The standalone program does not reproduce it: the disagreement depends on what the worker did earlier
+            # (global state leaked by the library). Shards are deterministic, so re-run the whole shard twice in fresh
+            # interpreters; if the same disagreement recurs it is real and the replay is the shard itself.
+            shard_snip = shard_snippet(mod.__name__, tier, seed, v['shard'], key)
+            st1, out1 = run_snippet(shard_snip, timeout=1800)
+            st2, out2 = run_snippet(shard_snip, timeout=1800)
+            if st1 == st2 == 'fails':
+                v = dict(v)
+                v['snippet'] = shard_snip
+                v['detail'] = dict(v['detail'], history_dependent='standalone program passes; reproduces only after the shard prefix')
         if st1 != st2 or st1 == 'passes':
             lines.append(f"HARNESS-ERROR property={prop} non-reproducible disagreement op={v['op']} kind={v['kind']} "
                          f"(fresh-interpreter replay: {st1}/{st2}); detail={json.dumps(v['detail'])[:300]}")
